@@ -1,6 +1,7 @@
 """C06 — receive path: arbitrary frames never crash it and never yield phantom data.
 Spec: WireProcess.tla (the reused-decoder receive path as a state machine over frame shapes; TLC exhaustive; the model of validPacket as found must fail
 NoPhantom), WireDecode.tla (Chains: the header chains a byte string contains), WireTrace.tla (what the real processors did with arbitrary bytes)."""
+import json
 import os
 import vf
 from checks import wire_common as wc
@@ -72,5 +73,10 @@ def run(ctx):
         ctx.violation(key, "%s processor (%s) on frame %s...: status %s, %d record(s) %s - no header chain of this frame carries these fields (%s)" %
                       (b["scan"], "raw IP" if b["vpn"] else "Ethernet", by[:60], b["status"], b["nrec"], b["rec"], b["text"]),
                       replay={"property": "C06", "trace_spec": "WireTrace", "run": [b]})
+    pick = next((x for x in events if x["ev"] == "Frame" and x["nrec"] == 1 and x["scan"] == "tcpflags"), None)
+    if pick is not None:
+        bad = json.loads(json.dumps(pick))
+        bad["rec"]["port"] = (bad["rec"]["port"] % 65535) + 1
+        vf.selftest_event(ctx, "WireTrace", bad, "the port of the record of an accepted frame changed")
     for e in [x for x in events if x["ev"] == "Frame"][:2]:
         ctx.sample({k: (v if k != "bytes" else v[:60]) for k, v in e.items()})
